@@ -104,7 +104,9 @@ pub fn run_item(tier: &str, idx: usize, only: Option<&Value>) -> MResult<ItemRes
             // a magic-link / absolute link strictly inside the path (not the last component)
             // open_follow treats a trailing slash as "follow the final link and demand a directory": the final link is not a component then
             let op_follows = op.name == "proc_open_follow" && fl & O_NOFOLLOW == 0 || (op.api == "c" && op.name == "proc_open" && fl & O_NOFOLLOW == 0);
-            let inner_magic = (1..if sub.ends_with('/') && !op_follows { comps.len() + 1 } else { comps.len() }).any(|j| magic(&comps[..j].join("/")));
+            // a final '.' component (cwd/., fd/20/./) makes whatever stands in front of it a component, for every operation
+            let ends_dot = clean == "." || clean.ends_with("/.");
+            let inner_magic = (1..if (sub.ends_with('/') && !op_follows) || ends_dot { comps.len() + 1 } else { comps.len() }).any(|j| magic(&comps[..j].join("/")));
             if has_dotdot || inner_magic || creation || magic(sub) { res.nontrivial += 1; }
             for (wn, o, pid) in [("K", &ko[i], pids[0]), ("E", &eo[i], pids[1])] {
                 let cls = if o.panic.is_some() { "PANIC".to_string() } else if o.ok { "ok".into() } else { errname(o.errno.unwrap_or(-1)) };
